@@ -214,6 +214,11 @@ var c08Payloads = map[string]string{
 	"glob-class":     "[a-z]*",
 	"brace-expand":   "{a,b}",
 	"newline-mid":    "l1\nl2",
+	"newline-blank-before": "a \nb",
+	"newline-tab-before":   "a\t\nb",
+	"newline-blank-after":  "a\n b",
+	"newline-tab-after":    "a\n\tb",
+	"newline-blank-lines":  " l1  \n\n  l3 ",
 	"tab-mid":        "a\tb",
 	"percent":        "100%s",
 	"hash":           "#no comment",
